@@ -23,7 +23,7 @@ def replay(spec: dict[str, Any]) -> int:
 LEVEL = "fault_enumeration"
 RULE = ("same fault x injection-point enumeration as C05 (steady-state baselines with pending requests, mid-stream entity listing, active "
         "subscriptions with traffic, keepalive timers in play, graceful disconnect in progress) plus 'closing frame + trailing frames in one chunk' "
-        "cases. The auditor runs at the first end-of-instant after each connection's CLOSED write and at scenario end: live TimerHandles in the loop, "
+        "cases, plus resolver / TCP-connect / setsockopt / silent-peer failures (alone and with force, disconnect, cancel at every injection point). The auditor runs at the first end-of-instant after each connection's CLOSED write and at scenario end: live TimerHandles in the loop, "
         "pending tasks / harness calls, FakeSockets not closed, transports never asked to close, transport.write after CLOSED, subscriber "
         "invocations after CLOSED. Non-trivial = the connection closed and was audited; distinct = trace signature")
 
@@ -31,4 +31,5 @@ RULE = ("same fault x injection-point enumeration as C05 (steady-state baselines
 def shard(ctx: Ctx) -> None:
     sweep.standard_sweep(ctx, PROP)
     sweep.trailing_frames_sweep(ctx, PROP)
+    sweep.connect_fault_sweep(ctx, PROP)   # failures BEFORE a transport exists (resolver, TCP, setsockopt, silent peer) x user actions: the socket must still be released
     sweep.pair_sweep(ctx, PROP, 4000 if ctx.thorough else 150)
